@@ -95,14 +95,19 @@ FinishCS == /\ Silent /\ fin = "none"
 TFinish == /\ IsEvent("Finish") /\ fin # "none" /\ Ev.empty = (fin = "empty") /\ fin' = "none"
            /\ UNCHANGED <<vars, ph, pop, dev, devAll>>
 
+\* the code's tracking lists as logged with Send and Idle (types only; rows for the CIDs on any list) must be the
+\* spec's locked state at that point: what the queue REMEMBERS is bound, not only what it has transmitted so far
+StRows == {<<c, ps[c].t, bs[c].t, pp[c].t, bp[c].t, IF cancels[c] # 0 THEN 1 ELSE 0>> :
+             c \in {x \in Cids : ps[x].t # 0 \/ bs[x].t # 0 \/ pp[x].t # 0 \/ bp[x].t # 0 \/ cancels[x] # 0}}
+StOk == ToSet(Ev.st) = StRows
 EntrySet == {[c |-> c, cancel |-> msg[c].cancel, t |-> msg[c].t, sdh |-> msg[c].sdh, k |-> msg[c].k] : c \in {x \in Cids : msg[x].t # 0}}
-TSend == /\ IsEvent("Send") /\ fin = "none" /\ Send
+TSend == /\ IsEvent("Send") /\ fin = "none" /\ Send /\ StOk
          /\ ToSet(Ev.entries) = EntrySet /\ Len(Ev.entries) = Cardinality(EntrySet)
          /\ UNCHANGED <<ph, pop, dev, devAll, fin>>
 
 TRbInvoke == IsEvent("RbInvoke") /\ RebroadcastReq /\ UNCHANGED <<ph, pop, dev, devAll, fin>>
 TRbReturn == IsEvent("RbReturn") /\ UNCHANGED <<vars, ph, pop, dev, devAll, fin>>
-TIdle == /\ IsEvent("Idle") /\ Idle /\ fin = "none" /\ \A p \in Procs : ph[p] = "idle"
+TIdle == /\ IsEvent("Idle") /\ Idle /\ fin = "none" /\ \A p \in Procs : ph[p] = "idle" /\ StOk
          /\ UNCHANGED <<vars, ph, pop, dev, devAll, fin>>
 
 TNext == \/ TReset \/ TInvoke \/ TReturn \/ TBuild \/ TFinish \/ TSend \/ TRbInvoke \/ TRbReturn \/ TIdle
@@ -114,6 +119,7 @@ TSpec == TInit /\ [][TNext]_tvars
 TConverged == dev = {} => Converged
 TWantNeverUnsent == dev = {} => WantNeverUnsent
 TCancelNeverLeftActive == dev = {} => CancelNeverLeftActive
+TSentListFaithful == dev = {} => (SentListFaithful /\ HeldIsRemembered)
 \* every accepting path reports the set of as-built alternatives it used; the runner keeps a smallest one
 DevReport == l <= Len(Trace) \/ PrintT(<<"DEV_SET", devAll>>)
 
